@@ -464,6 +464,16 @@ ANCHORED_PRIVATE = frozenset({
     '_check_arrayinfoconsistency', '_archunkgenerator'})
 
 
+# which class owns each anchored private method on today's tree (a method of the same name that appears in another
+# class is a new helper and may be inlined inside that class)
+ANCHORED_OWNERS = {
+    '_update_readmetxt': ('Array', 'RaggedArray'), '_append': ('Array', 'RaggedArray'), '_write_txt': ('DataDir',),
+    '_write_jsonfile': ('DataDir',), '_write_jsondict': ('DataDir',), '_view': ('RaggedArray',), '_update_len': ('Array',),
+    '_update_jsondict': ('DataDir',), '_update_arrayinfo': ('Array',), '_update_arraydescr': ('RaggedArray',),
+    '_read_arraydescr': ('Array',), '_read': ('MetaData',), '_open_array': ('Array',), '_delete_files': ('DataDir',),
+    '_checkarrayforappend': ('Array',), '_check_writeprotected': ('DataDir',), '_check_arrayinfoconsistency': ('Array',)}
+
+
 class Repo:
     def __init__(self, root='/repo', expand=False):
         self.root = root
@@ -486,7 +496,8 @@ class Repo:
         if expand:
             from .inline import expand as _expand
             trees = {n: m.tree for n, m in self.modules.items()}
-            self.expanded = _expand(trees, keep=self._role_keep(trees))
+            self.expanded = _expand(trees, keep=self._role_keep(trees),
+                                    anchored_owner=lambda nm, cls: cls in ANCHORED_OWNERS.get(nm, ()))
             for m in self.modules.values():
                 m.tree = normalise(m.tree)
                 m.build()
